@@ -175,6 +175,13 @@ impl BlockEncoder {
             _ => Err(FluteError::new("Not a data source buffer")),
         }?;
 
+        if content.is_empty() {
+            // Empty object: nothing to encode, as for an empty stream
+            // read() sends the single packet carrying the close object flag
+            self.read_end = true;
+            return Ok(());
+        }
+
         let oti = &self.file.oti;
         let block_length = match self.curr_sbn as u64 {
             value if value < self.nb_a_large => self.a_large,
